@@ -224,7 +224,7 @@ pub fn expand_type_support(input: &DeriveInput) -> Result<TokenStream> {
 
                                 member_dynamic_sample_seq
                                     .push(quote! {
-                                        if self.#member_ident != #member_default_value {
+                                        if self.#member_ident != (#member_default_value) {
                                             data.set_value(#member_id, dust_dds::xtypes::data_storage::DataStorageMapping::into_storage(self.#member_ident));
                                         }
                                     });
@@ -259,7 +259,7 @@ pub fn expand_type_support(input: &DeriveInput) -> Result<TokenStream> {
                                     )?,
                                 });
                                 member_dynamic_sample_seq.push(quote! {
-                                    if self.#index != #member_default_value {
+                                    if self.#index != (#member_default_value) {
                                         data.set_value(#member_id, dust_dds::xtypes::data_storage::DataStorageMapping::into_storage(self.#index));
                                     }
                                 })
